@@ -84,6 +84,7 @@ class Block:
         self.enum_to_counter = False  # R14: `for (i, p) in e.enumerate()` written with an explicit counter
         self.eta = []          # constructor paths to eta-expand where passed as a function value (R9)
         self.eta_found = {}
+        self.eta_optional = set()
         self.head_all = None   # head text for every fn of the block (a fn's own `head` is put after it)
         self.trait_decl_only = False  # R12 (`//@ decl-only`): a trait is emitted as declarations only (default bodies dropped, specs kept)
         self.params_to_let_all = False  # R8 for every fn of the block
@@ -364,6 +365,11 @@ class Assembler:
                             # `ensures r == twin(..)`, so the twin is derived from the current tree on every run and
                             # checked against the executable text; nothing is hand-copied.
                             blk.as_spec = d[8:].strip()
+                        elif d.startswith('eta? '):
+                            # optional: when the constructor is no longer passed as a function value the rewrite is skipped
+                            # (the contract of the fn decides) instead of ending anchor-lost
+                            blk.eta.append(d[5:].strip())
+                            blk.eta_optional.add(d[5:].strip())
                         elif d.startswith('eta '):
                             # R8: a tuple-struct/variant constructor passed as a function value, `f(Path::Ctor)`, is
                             # eta-expanded to `f(|eta_x| Path::Ctor(eta_x))` (Verus: "using a datatype constructor as a
@@ -1022,7 +1028,7 @@ class Assembler:
                         else:
                             k += 1
         for ctor in blk.eta:
-            if not blk.eta_found.get(ctor) and not blk.decl_only:   # a declaration (include-external) has no body to rewrite
+            if not blk.eta_found.get(ctor) and not blk.decl_only and ctor not in blk.eta_optional:   # a declaration (include-external) has no body to rewrite
                 raise AnchorLost('no `(%s)` argument in %s of %s' % (ctor, item.name or item.kind, blk.relpath))
         # stable sort on the offsets only: edits at the same offset keep their insertion order
         # (ret-naming ')' before the spec text of a body-less trait method)
